@@ -36,38 +36,105 @@ def _conjuncts(t):
     return [t]
 
 
+def _roots(n):
+    """the names an expression is built from"""
+    import jinja2.nodes as N
+    return {x.name for x in ([n] if isinstance(n, N.Name) else []) + list(n.find_all(N.Name))}
+
+
 def sites():
-    """[(template, line, E as text, [guard conjuncts as text])]"""
+    """[(template, line, E as text, [guard conjuncts as text], origin of E)]: origin is None, or ("for", iterable node, macro name or None, macro parameter names)"""
     import jinja2, jinja2.nodes as N
     env = jinja2.Environment()
     tdir = os.path.join(os.path.dirname(loader.module_path("ford.output")), "templates")
-    out = []
+    out, trees = [], {}
     for name in sorted(os.listdir(tdir)):
-        if not name.endswith(".html"):
-            continue
-        tree = env.parse(open(os.path.join(tdir, name), encoding="utf-8").read())
+        if name.endswith(".html"):
+            trees[name] = env.parse(open(os.path.join(tdir, name), encoding="utf-8").read())
+    for name, tree in trees.items():
+        # `{% set x = <expr> %}`: every expression a name is set to, per template (a link built in a `set` and printed as `href="{{ x }}"` is the same link)
+        sets = {}
+        for a in tree.find_all(N.Assign):
+            if isinstance(a.target, N.Name):
+                sets.setdefault(a.target.name, []).append(a.node)
 
-        def visit(node, cond):
+        def resolve(ch, depth=0):
+            if isinstance(ch, N.Name) and ch.name in sets and depth < 3:
+                return [y for x in sets[ch.name] for y in resolve(x, depth + 1)]
+            return [ch]
+
+        def visit(node, cond, loops, macro):
+            if isinstance(node, N.Macro):
+                for b in node.body:
+                    visit(b, cond, loops, (node.name, [a.name for a in node.args]))
+                return
+            if isinstance(node, N.For):
+                l2 = dict(loops)
+                if isinstance(node.target, N.Name):
+                    l2[node.target.name] = node.iter
+                for b in node.body:
+                    visit(b, cond, l2, macro)
+                for b in node.else_:
+                    visit(b, cond, loops, macro)
+                return
             if isinstance(node, N.If):
                 pos = _conjuncts(node.test)
                 for b in node.body:
-                    visit(b, cond + [_txt(c) for c in pos])
+                    visit(b, cond + [_txt(c) for c in pos], loops, macro)
                 for e in node.elif_:
                     for b in e.body:
-                        visit(b, cond + [_txt(c) for c in _conjuncts(e.test)])
+                        visit(b, cond + [_txt(c) for c in _conjuncts(e.test)], loops, macro)
                 for b in node.else_:
-                    visit(b, cond)
+                    visit(b, cond, loops, macro)
                 return
             if isinstance(node, N.Output):
                 for i, ch in enumerate(node.nodes):
                     if i and isinstance(node.nodes[i - 1], N.TemplateData) and re.search(r'href="(?:\.\./)?$', node.nodes[i - 1].data):
-                        calls = [c for c in [ch] + list(ch.find_all(N.Call)) if isinstance(c, N.Call) and isinstance(c.node, N.Getattr) and c.node.attr == "get_url"]
-                        if calls:
-                            out.append((name, ch.lineno, _txt(calls[0].node.node), list(cond)))
+                        seen = set()
+                        for ex in resolve(ch):
+                            for c in [ex] + list(ex.find_all(N.Call)):
+                                if isinstance(c, N.Call) and isinstance(c.node, N.Getattr) and c.node.attr == "get_url":
+                                    ent = _txt(c.node.node)
+                                    if ent in seen:
+                                        continue
+                                    seen.add(ent)
+                                    origin = ("for", loops[ent], macro[0] if macro else None, macro[1] if macro else []) if ent in loops else None
+                                    out.append((name, ch.lineno, ent, list(cond), origin))
+                                    break
+                            if seen:
+                                break
             for c in node.iter_child_nodes():
-                visit(c, cond)
-        visit(tree, [])
+                visit(c, cond, loops, macro)
+        visit(tree, [], {}, None)
+    sites.trees = trees
     return out
+
+
+def _own_list(origin, trees):
+    """E runs over lists of the page's own entity (`self.<list>`, pruned to the displayed entities: C05.A.prune) - directly, or through a macro parameter to which every
+    call in the templates passes an expression built from `self` alone"""
+    import jinja2.nodes as N
+    if not origin:
+        return False, ""
+    _, it, macro, params = origin
+    roots = _roots(it)
+    if roots == {"self"}:
+        return True, f"`{_txt(it)}`: a list of the page's own entity"
+    if macro and isinstance(it, N.Name) and it.name in params:
+        k = params.index(it.name)
+        args = []
+        for t in trees.values():
+            for c in t.find_all(N.Call):
+                callee = c.node.name if isinstance(c.node, N.Name) else c.node.attr if isinstance(c.node, N.Getattr) else None
+                if callee == macro:
+                    a = next((kw.value for kw in c.kwargs if kw.key == it.name), c.args[k] if k < len(c.args) else None)
+                    if a is None:
+                        return False, f"a call of {macro} does not pass `{it.name}`"
+                    args.append(a)
+        if args and all(_roots(a) == {"self"} for a in args):
+            return True, f"macro parameter `{it.name}` of {macro}: each of the {len(args)} calls passes a list of the page's own entity"
+        return False, f"macro parameter `{it.name}` of {macro}: calls pass {[_txt(a) for a in args if _roots(a) != {'self'}][:3]}"
+    return False, f"loop over `{_txt(it)}`"
 
 
 def obligations(prop="C05", replay=None):
@@ -75,22 +142,29 @@ def obligations(prop="C05", replay=None):
         found = sites()
     except Exception as e:
         return [OR(id=f"{prop}.S.templates.entity_links", status=UNKNOWN, kind="S", target="ford/templates", detail=f"{type(e).__name__}: {e}")]
-    out = []
-    for name, line, ent, cond in found:
+    from contracts import astform
+    out, memo = [], {}
+    for name, line, ent, cond, origin in found:
         if ent == "self" or re.match(r"^project\.\w+\[0\]$", ent):
             why, ok = "the page's own entity / first element of a project list of displayed entities", True
         else:
             ok = f"{ent}.visible" in cond or f"{ent}.parent.visible" in cond
             why = f"guards: {cond}"
-        r = OR(id=f"{prop}.S.templates.{name}.L{line}.link_to_{ent.replace('.', '_')}_is_guarded_by_visibility", status=PROVED if ok else REFUTED, kind="S", role="pre", backend="jinja2-ast",
+            if not ok:
+                ok, w2 = _own_list(origin, sites.trees)
+                why = w2 or why
+        r = OR(id=f"{prop}.S.templates.{name}.L{line}.link_to_{ent.replace('.', '_')}_is_guarded_by_visibility", status=PROVED, kind="S", role="pre", backend="jinja2-ast",
                target=f"ford/templates/{name}", desc=f'`href="../{{{{ {ent}.get_url() }}}}"` (line {line}) is emitted only when the linked entity is displayed ({why})')
         if not ok:
             r.witness = {"template": name, "line": line, "entity": ent, "guards": cond}
-            r.detail = f"no `{ent}.visible` / `{ent}.parent.visible` among the enclosing conditions"
-            if replay:
-                r.replay = replay(name, line)
-        out.append(r)
-    if len([1 for _, _, e, _ in found if e != "self"]) < 2:
+            r.detail = f"no `{ent}.visible` / `{ent}.parent.visible` among the enclosing conditions, and `{ent}` does not run over a list of the page's own entity"
+
+        def _rp(name=name, line=line):
+            if "hit" not in memo:
+                memo["hit"] = replay(name, line) if replay else None
+            return memo["hit"]
+        out.append(astform.decide(r, ok, _rp))
+    if len([1 for _, _, e, _, _ in found if e != "self"]) < 2:
         out.append(OR(id=f"{prop}.S.templates.entity_links.anchor", status=UNKNOWN, kind="S", target="ford/templates", detail=f"expected the hard-coded entity links of macros.html, found {found}"))
     return out
 
